@@ -604,9 +604,12 @@ def replay_behaviour(beh, canon=False, variant=0):
     spec_pool = {}
     for s, t in enumerate(beh['init']):
         if t['legs']:
-            pool[s + 1] = build(t, variant)
+            try:
+                pool[s + 1] = build(t, variant)
+                c = compare(project(pool[s + 1]), t) or (npc.sanity_clauses(pool[s + 1]) or [None])[0]
+            except Exception as e:  # noqa  (building a catalogue tensor is Array.from_ndarray with valid arguments)
+                c = 'raised-' + type(e).__name__
             spec_pool[s + 1] = t
-            c = compare(project(pool[s + 1]), t)
             if c:
                 findings.append(dict(clause='init-' + c, step=-1, op='from_ndarray', flags=[]))
                 return findings, 0, records
